@@ -488,3 +488,89 @@ def _escaping_collections(cx, ph, fn, operand, aty, depth=0):
                         oty = fn.local_ty(ol) if not op_place(o)[1] else op_place(o)[2]
                         out.extend(_escaping_collections(cx, ph, fn, o, oty, depth + 1))
     return out
+
+
+# ---------------------------------------------------------------------------------------------
+# R-MATCH-ORDER (C03): the three jump lists of a match arm are patched where the code says they are
+
+def rule_match_order(cx, tier):
+    r = RuleResult("R-MATCH-ORDER", "the jump mesh of a match arm lands where the arm's structure requires: "
+                                    "`alternative_end` is patched inside the alternatives loop, `match_end` (taken after a "
+                                    "successful non-last alternative) is patched after that loop and before the arm's guard "
+                                    "is compiled, `arm_end` (failed match / failed guard) after the arm's body")
+    fn = cx.need_fn(COMP + "compile_match_arm")
+    cfg = cx.cfg(fn)
+    du = cx.du(fn)
+    ph = PH(cx)
+    # drains per field
+    consumed = {}
+    for c in fn.calls():
+        if c.short == UPDATE and len(c.args) > 1:
+            l = op_base(c.args[1])
+            if l is not None:
+                for t in ph.origins(fn, l):
+                    if t[0] == "iter":
+                        it = fn.call_at(t[1])
+                        k = ph.coll_key(fn, it.args[0]) if it is not None and it.args else None
+                        if k is not None and k[2]:
+                            # the patch point is where the iteration over the list starts (the loop may run 0 times)
+                            consumed.setdefault(k[2][-1], set()).add(t[1])
+    for need in ("alternative_end", "match_end", "arm_end"):
+        require(need in consumed, f"R-MATCH-ORDER: no patch loop over jumps.{need} found in compile_match_arm")
+    # the guard and the body: compile_node calls whose node argument comes from the MatchArm's fields
+    def node_calls(field):
+        out = []
+        for c in fn.calls():
+            if c.short != COMP + "compile_node" or len(c.args) < 2:
+                continue
+            l = op_base(c.args[1])
+            seen = 0
+            while l is not None and seen < 10:
+                seen += 1
+                if fn.local_name(l) == field:
+                    out.append(c)
+                    break
+                d = du.single_def(l)
+                if d is None or d[2] != "assign":
+                    break
+                rv = d[3]
+                pl = op_place(rv[1]) if rv[0] == "use" else (rv[2] if rv[0] == "ref" else None)
+                if pl is None:
+                    break
+                if field in place_fields(pl):
+                    out.append(c)
+                    break
+                l = pl[0]
+        return out
+    guard = node_calls("condition")
+    body = node_calls("expression")
+    require(guard and body, "R-MATCH-ORDER: the compile_node calls for the arm's condition / expression were not found")
+    loops = [cfg.natural_loop(t, h) for (t, h) in cfg.back_edges()]
+    # the alternatives loop: the loop that contains the fill call (compile_match_arm_patterns)
+    fills = [c for c in fn.calls() if c.short == COMP + "compile_match_arm_patterns"]
+    require(fills, "R-MATCH-ORDER: compile_match_arm_patterns call not found")
+    alt_loops = [l for l in loops if fills[0].bb in l]
+    require(alt_loops, "R-MATCH-ORDER: the alternatives loop was not found")
+    alt_loop = max(alt_loops, key=len)
+    r.analysed = {"guard_calls": len(guard), "body_calls": len(body), "alternatives_loop_blocks": len(alt_loop)}
+    checks = [
+        ("alternative_end:in-loop", all(b in alt_loop for b in consumed["alternative_end"]),
+         "jumps.alternative_end is not patched inside the alternatives loop: a failed alternative no longer jumps to the "
+         "next alternative"),
+        ("match_end:after-loop", all(b not in alt_loop for b in consumed["match_end"]),
+         "jumps.match_end is patched inside the alternatives loop"),
+        ("match_end:before-guard", all(any(cfg.dominates(b, g.bb) for b in consumed["match_end"]) for g in guard) and
+         not any(b in cfg.reachable_after(g.bb) for g in guard for b in consumed["match_end"]),
+         "jumps.match_end is not patched before the arm's guard is compiled: a successful non-last `or` alternative jumps "
+         "past the guard straight into the arm's body, so the arm runs with a false guard"),
+        ("arm_end:after-body", all(any(b in cfg.reachable_after(x.bb) for b in consumed["arm_end"]) for x in body) and
+         not any(cfg.dominates(b, x.bb) for x in body for b in consumed["arm_end"]),
+         "jumps.arm_end is not patched after the arm's body: a failed match or guard falls into the body"),
+    ]
+    for slot, ok, msg in checks:
+        r.instances += 1
+        r.nontrivial += 1
+        if not ok:
+            r.add(Finding("R-MATCH-ORDER", fn.qual, slot, msg, fn.file, fn.line))
+        r.sample({"check": slot, "ok": ok})
+    return r
